@@ -1,16 +1,32 @@
 import HgVerif.Model.TrackBind
+import HgVerif.Model.KeySet
 import HgVerif.Driver.Proto
 /-! Model driver for the C04 `track-bind` stream: same line protocol as `harness/drv_trackbind.cpp`.
 Two outputs of one schema (`ts` / `tss` / `tsd`), 1-3 inputs; the link of every input is
 `TrackBind.Link`, stepped by `TrackBind.stepL` (`bindImpl` for bind / bindS / rebind / rebindS), the
 producers' records by `TrackBind.stepP`; flags through `cValid / cModified / cLmt / cChildModified`, the
-delta views through `rawAdded / rawRemoved / prevPublished`. -/
-open HgVerif.TrackBind HgVerif.Driver
+delta views through `rawAdded / rawRemoved / prevPublished`.  Dictionaries (`tsd`, nested `tsdn`): every mutation is
+a sequence of `KeySet.Prim` steps; `KeySet.ticks / stamps` decide which of the two records (the dictionary's, its
+key set's - producer endpoints `o` and `o + 2`) is stamped; key-set inputs are `Link`s bound to endpoint `o + 2`. -/
+open HgVerif.TrackBind HgVerif.KeySet HgVerif.Driver
+
+/-- an inner dictionary of the nested schema -/
+structure Inner where
+  coll : Coll := {}
+  d : Nat := 0
+  k : Nat := 0
+  vals : List (Int × Int) := []
+  C : List (Int × Nat) := []
+deriving Inhabited
 
 structure DS where
   have_ : Bool := false
-  kind : Nat := 0                                  -- 0 ts, 1 tss, 2 tsd
-  Ls : Array Nat := #[0, 0]
+  kind : Nat := 0                                  -- 0 ts, 1 tss, 2 tsd, 3 tsdn
+  Ls : Array Nat := #[0, 0, 0, 0]                  -- outputs 0, 1; their key-set endpoints 2, 3
+  klinks : Array Link := #[]                       -- the key-set inputs (tsd / tsdn)
+  inner : List ((Nat × Int) × Inner) := []         -- tsdn: the inner dictionary under (output, outer key)
+  pub : Array (List Int) := #[[], []]              -- tsdn: outer keys whose child has been published
+  pend : Array (List Int) := #[[], []]             -- tsdn: outer keys erased in the current delta window
   Cs : List ((Nat × Int) × Nat) := []
   colls : Array Coll := #[{}, {}]
   tsv : Array Int := #[0, 0]
@@ -41,7 +57,20 @@ def tick (d : DS) (o : Nat) (c : Option Int) (t : Nat) : DS :=
   let Cs := match c with
     | some key => ((o, key), P'.C o key) :: d.Cs.filter (fun x => x.1 != (o, key))
     | none => d.Cs
-  { d with Ls := #[P'.L 0, P'.L 1], Cs := Cs, links := d.links.map (fun ln => stepL d.structural P ln e) }
+  { d with Ls := #[P'.L 0, P'.L 1, P'.L 2, P'.L 3], Cs := Cs, links := d.links.map (fun ln => stepL d.structural P ln e),
+           klinks := d.klinks.map (fun ln => stepL true P ln e) }
+
+/-- the two records and the live keys of the dictionary in output `o` -/
+def DS.dk (d : DS) (o : Nat) : DK := { d := d.Ls.getD o 0, k := d.Ls.getD (o + 2) 0, keys := (d.colls.getD o {}).cur }
+
+/-- the record side of one primitive step of dictionary `o` (decided on the state `dk` BEFORE the step): the
+dictionary endpoint `o` (with the written child, if any) and the key-set endpoint `o + 2` -/
+def prim (d : DS) (dk : DK) (o : Nat) (p : Prim) (t : Nat) (child : Option Int := none) : DS :=
+  let d1 := if stamps dk p then tick d (o + 2) none t else d
+  if ticks dk p then tick d1 o child t
+  else match child with
+    | some _ => tick d1 o child t      -- unreachable: a child write always ticks
+    | none => d1
 
 /-- `has_published_structural_state(previous target, t)` -/
 def hasPublished (d : DS) (p t : Nat) : Bool :=
@@ -63,12 +92,36 @@ def dumpProducer (d : DS) (o t : Nat) : String :=
   | 1 => fl ++ "/" ++ showI c.cur ++ "/+" ++ showI (if modif then c.add else []) ++ "/-" ++ showI (if modif then c.rem else [])
   | _ =>
     let kids := (sortI c.cur).map fun key =>
+      if d.kind == 3 then
+        let inn := (d.inner.lookup (o, key)).getD {}
+        let gk := (sortI inn.coll.cur).map fun k2 =>
+          let gl := (inn.C.lookup k2).getD 0
+          s!"{k2}=" ++ flagStr (gl != 0) (t != 0 && gl == t) gl ++ "/" ++
+            (if gl != 0 then toString ((inn.vals.lookup k2).getD 0) else "-")
+        s!"{key}=" ++ flagStr (inn.d != 0) (t != 0 && inn.d == t) inn.d ++ "/K" ++
+          flagStr (inn.k != 0) (t != 0 && inn.k == t) inn.k ++ "/" ++ showL gk
+      else
       let cl := P.C o key
       s!"{key}=" ++ flagStr (cl != 0) (decide (pChildModified P o key t)) cl ++ "/" ++
         (if cl != 0 then toString (((d.dv.getD o []).lookup key).getD 0) else "-")
     let sm := t != 0 && c.dt == t
+    let ks := P.L (o + 2)
+    let km := t != 0 && ks == t
     fl ++ "/" ++ showL kids ++ "/~" ++ showI (if modif then c.md else []) ++ "/+" ++ showI (if sm then c.add else []) ++
-      "/-" ++ showI (if sm then c.rem else [])
+      "/-" ++ showI (if sm then c.rem else []) ++
+      "/K" ++ flagStr (ks != 0) km ks ++ "/+" ++ showI (if km then c.add else []) ++ "/-" ++ showI (if km then c.rem else [])
+
+def dumpKeySetConsumer (d : DS) (ln : Link) (t : Nat) : String :=
+  let P := d.prod
+  let modif := decide (cModified P ln t)
+  let fl := flagStr (decide (cValid P ln)) modif (cLmt P ln)
+  match ln.tgt with
+  | none => "-: " ++ fl
+  | some e =>
+    let o := e - 2
+    let c := d.colls.getD o {}
+    s!"{o}: " ++ fl ++ "/" ++ showI c.cur ++ "/+" ++ showI (if modif then rawAdded ln t c [] else []) ++
+      "/-" ++ showI (if modif then rawRemoved ln t c none else [])
 
 def dumpConsumer (d : DS) (ln : Link) (t : Nat) : String :=
   let P := d.prod
@@ -108,7 +161,105 @@ def dumpConsumer (d : DS) (ln : Link) (t : Nat) : String :=
 def dumpLine (d : DS) (t : Nat) : String :=
   let os := (List.range 2).map fun o => s!"o{o}: " ++ dumpProducer d o t
   let is := (d.links.toList.zipIdx).map fun (ln, i) => s!"i{i}>" ++ dumpConsumer d ln t
-  " | ".intercalate (os ++ is)
+  let ks := (d.klinks.toList.zipIdx).map fun (ln, i) => s!"k{i}>" ++ dumpKeySetConsumer d ln t
+  " | ".intercalate (os ++ is ++ ks)
+
+/-! ### flat dictionaries: every mutation as `KeySet.Prim` steps -/
+
+/-- `TSDDataMutationView::set(key, v)`: `at(key)` (insert_key), then the child write -/
+def dictSet (d : DS) (o t : Nat) (key v : Int) : DS :=
+  let dk := d.dk o
+  let (c1, _) := (d.colls.getD o {}).insert key t
+  let c2 := c1.markModified key t
+  let d1 := { d with colls := d.colls.set! o c2, dv := d.dv.set! o ((key, v) :: (d.dv.getD o []).filter (·.1 != key)) }
+  let d2 := prim d1 dk o (.at key) t
+  prim d2 (dkStep dk (.at key) t) o .childTick t (some key)
+
+/-- `TSDDataMutationView::erase(key)`; a non-changing erase still touches the DICTIONARY (`touch_impl` -> `mark_modified`) -/
+def dictErase (d : DS) (o t : Nat) (key : Int) : DS × Bool :=
+  let dk := d.dk o
+  let (c', ch) := (d.colls.getD o {}).remove key t
+  let d1 := { d with colls := d.colls.set! o c', dv := d.dv.set! o ((d.dv.getD o []).filter (·.1 != key)) }
+  (prim d1 dk o (.erase key) t, ch)
+
+/-- `TSDDataMutationView::touch()` -/
+def dictTouch (d : DS) (o t : Nat) : DS :=
+  let dk := d.dk o
+  prim { d with colls := d.colls.set! o ((d.colls.getD o {}).prepare t) } dk o .touch t
+
+/-- `apply_delta(out, <empty delta>)`: nothing at all on a valid dictionary, `touch()` otherwise -/
+def dictEmpty (d : DS) (o t : Nat) : DS := if d.Ls.getD o 0 != 0 then d else dictTouch d o t
+
+def parseItems (s : String) : Option (List (Int × Int)) :=
+  if s == "-" then some [] else
+  let items := s.splitOn ","
+  let parsed := items.map fun it =>
+    match it.splitOn ":" with
+    | [a, b] => if isInt a && isInt b then some (a.toInt!, b.toInt!) else none
+    | _ => none
+  if parsed.any Option.isNone then none else
+  let l := parsed.filterMap id
+  if (l.map (·.1)).eraseDups.length != l.length then none else some l
+
+/-! ### nested dictionaries -/
+
+def DS.inn (d : DS) (o : Nat) (k1 : Int) : Inner := (d.inner.lookup (o, k1)).getD {}
+def DS.setInn (d : DS) (o : Nat) (k1 : Int) (i : Inner) : DS :=
+  { d with inner := ((o, k1), i) :: d.inner.filter (fun x => x.1 != (o, k1)) }
+
+/-- `prepare_delta` of the OUTER dictionary: a newer time rolls the window and drops the pending-erase slots -/
+def outerPrepare (d : DS) (o t : Nat) : DS :=
+  let c := d.colls.getD o {}
+  if t ≤ c.dt then d else
+  let gone := d.pend.getD o []
+  { d with colls := d.colls.set! o (c.prepare t), pend := d.pend.set! o [],
+           inner := d.inner.filter (fun x => !(x.1.1 == o && gone.contains x.1.2)) }
+
+/-- outer `mutation.at(k1)`: `insert_key` (a new key has a not-yet-valid child: no added mark yet) -/
+def outerAt (d : DS) (o t : Nat) (k1 : Int) : DS :=
+  let d := outerPrepare d o t
+  let dk := d.dk o
+  let c := d.colls.getD o {}
+  if c.cur.contains k1 then d else
+  let resurrect := (d.pend.getD o []).contains k1
+  let inn := if resurrect then d.inn o k1 else {}
+  let wasRemoved := c.rem.contains k1
+  let published := wasRemoved || inn.d != 0
+  let c1 : Coll := { c with cur := c.cur ++ [k1], rem := c.rem.filter (· != k1),
+                            add := if !wasRemoved && inn.d != 0 then c.add ++ [k1] else c.add,
+                            md := if published && inn.d == t && !c.md.contains k1 then c.md ++ [k1] else c.md }
+  let d0 := d.setInn o k1 inn
+  let pend' := (d.pend.getD o []).filter (fun x => x != k1)
+  let pub' := if published then k1 :: (d.pub.getD o []) else (d.pub.getD o []).filter (fun x => x != k1)
+  let d1 := { d0 with colls := d.colls.set! o c1, pend := d.pend.set! o pend', pub := d.pub.set! o pub' }
+  prim d1 dk o (.at k1) t
+
+/-- the inner dictionary under `k1` ticked (its `record_modified` succeeded): `record_child_modified` of the outer -/
+def outerChildTick (d : DS) (o t : Nat) (k1 : Int) : DS :=
+  let d := outerPrepare d o t
+  let dk := d.dk o
+  let c := d.colls.getD o {}
+  let isPub := (d.pub.getD o []).contains k1
+  let c1 : Coll :=
+    if isPub then c
+    else if c.rem.contains k1 then { c with rem := c.rem.filter (· != k1) } else { c with add := c.add ++ [k1] }
+  let c2 : Coll := if c1.md.contains k1 then c1 else { c1 with md := c1.md ++ [k1] }
+  let d1 := { d with colls := d.colls.set! o c2, pub := d.pub.set! o (if isPub then d.pub.getD o [] else k1 :: d.pub.getD o []) }
+  prim d1 dk o .childTick t (some k1)
+
+/-- one primitive step of the inner dictionary; the outer is told when the inner record moves -/
+def innerPrim (d : DS) (o t : Nat) (k1 : Int) (p : Prim) (f : Coll → Coll) (gc : Option (Int × Int) := none) : DS :=
+  let inn := d.inn o k1
+  let dk : DK := { d := inn.d, k := inn.k, keys := inn.coll.cur }
+  let dk' := dkStep dk p t
+  let inn1 : Inner := { inn with coll := f inn.coll, d := dk'.d, k := dk'.k }
+  let inn2 : Inner := match gc with
+    | some (k2, v) => { inn1 with vals := (k2, v) :: inn1.vals.filter (·.1 != k2),
+                                  C := (k2, record ((inn1.C.lookup k2).getD 0) t) :: inn1.C.filter (·.1 != k2),
+                                  d := record inn1.d t }
+    | none => inn1
+  let d1 := d.setInn o k1 inn2
+  if inn2.d != inn.d then outerChildTick d1 o t k1 else d1
 
 def stepD (d : DS) (ws : List String) : DS × String :=
   match ws with
@@ -117,12 +268,13 @@ def stepD (d : DS) (ws : List String) : DS × String :=
     if !isNat k then (d, "bad-op") else
     let k := k.toNat!
     if k < 1 || k > 3 then (d, "bad-op") else
-    match (["ts", "tss", "tsd"].idxOf? s) with
-    | some kind => ({ have_ := true, kind := kind, links := Array.replicate k {} }, "ok")
+    match (["ts", "tss", "tsd", "tsdn"].idxOf? s) with
+    | some kind => ({ have_ := true, kind := kind, links := Array.replicate k {},
+                      klinks := if kind ≥ 2 then Array.replicate k {} else #[] }, "ok")
     | none => (d, "bad-op")
   | [op, i, o, t] =>
     if !d.have_ then (d, "bad-op") else
-    if op == "bind" || op == "bindS" || op == "rebind" || op == "rebindS" then
+    if (op == "bind" || op == "bindS" || op == "rebind" || op == "rebindS") && d.kind != 3 then
       if !isNat i || !isNat o || !isTime t then (d, "bad-op") else
       let (i, o, t) := (i.toNat!, o.toNat!, t.toNat!)
       match d.links[i]? with
@@ -132,6 +284,14 @@ def stepD (d : DS) (ws : List String) : DS × String :=
         let sampled := op.endsWith "S"
         let pp := match ln.tgt with | some p => hasPublished d p t | none => false
         ({ d with links := d.links.set! i (stepL d.structural d.prod ln (.bind o t sampled pp)) }, "ok")
+    else if op == "bindK" && d.kind ≥ 2 then
+      if !isNat i || !isNat o || !isTime t then (d, "bad-op") else
+      let (i, o, t) := (i.toNat!, o.toNat!, t.toNat!)
+      match d.klinks[i]? with
+      | none => (d, "bad-op")
+      | some ln =>
+        if o ≥ 2 || ln.tgt.isSome then (d, "bad-op") else
+        ({ d with klinks := d.klinks.set! i (stepL true d.prod ln (.bind (o + 2) t false false)) }, "ok")
     else if op == "w" && d.kind == 0 then
       -- here the three operands are <o> <t> <v>
       let (o, t, v) := (i, o, t)
@@ -147,34 +307,89 @@ def stepD (d : DS) (ws : List String) : DS × String :=
       let c := d.colls.getD o {}
       let (c', ch) := if op == "add" then c.insert e t else c.remove e t
       let d1 := { d with colls := d.colls.set! o c' }
-      -- a non-changing add / remove / erase still TOUCHES the collection (`touch_impl` -> `mark_modified`)
+      -- a non-changing add / remove still TOUCHES the collection (`touch_impl` -> `mark_modified`)
       (tick d1 o none t, b2s ch)
     else if op == "del" && d.kind == 2 then
       let (o, t, key) := (i, o, t)
       if !isNat o || !isTime t || !isInt key then (d, "bad-op") else
       let (o, t, key) := (o.toNat!, t.toNat!, key.toInt!)
       if o ≥ 2 then (d, "bad-op") else
-      let (c', ch) := (d.colls.getD o {}).remove key t
-      let d1 := { d with colls := d.colls.set! o c', dv := d.dv.set! o ((d.dv.getD o []).filter (·.1 != key)) }
-      -- a non-changing add / remove / erase still TOUCHES the collection (`touch_impl` -> `mark_modified`)
-      (tick d1 o none t, b2s ch)
+      let (d1, ch) := dictErase d o t key
+      (d1, b2s ch)
+    else if op == "del" && d.kind == 3 then
+      let (o, t, key) := (i, o, t)
+      if !isNat o || !isTime t || !isInt key then (d, "bad-op") else
+      let (o, t, key) := (o.toNat!, t.toNat!, key.toInt!)
+      if o ≥ 2 then (d, "bad-op") else
+      let d0 := outerPrepare d o t
+      let live := (d0.colls.getD o {}).cur.contains key
+      let (d1, ch) := dictErase d0 o t key
+      let d2 := if live then { d1 with pend := d1.pend.set! o (key :: d1.pend.getD o []),
+                                       pub := d1.pub.set! o ((d1.pub.getD o []).filter (· != key)) } else d1
+      (d2, b2s ch)
+    else if op == "setall" && d.kind == 2 then
+      let (o, t, m) := (i, o, t)
+      if !isNat o || !isTime t then (d, "bad-op") else
+      let (o, t) := (o.toNat!, t.toNat!)
+      if o ≥ 2 then (d, "bad-op") else
+      match parseItems m with
+      | none => (d, "bad-op")
+      | some items =>
+        -- `copy_value_from`: newly_touched = !modified(t); touch(); set every item; erase every other live key
+        let newly := d.Ls.getD o 0 != t
+        let d1 := dictTouch d o t
+        let d2 := items.foldl (fun acc (kv : Int × Int) => dictSet acc o t kv.1 kv.2) d1
+        let gone := ((d2.colls.getD o {}).cur).filter (fun key => !(items.map (·.1)).contains key)
+        let d3 := gone.foldl (fun acc key => (dictErase acc o t key).1) d2
+        (d3, b2s newly)
+    else if (op == "ntouch" || op == "nempty") && d.kind == 3 then
+      let (o, t, k1) := (i, o, t)
+      if !isNat o || !isTime t || !isInt k1 then (d, "bad-op") else
+      let (o, t, k1) := (o.toNat!, t.toNat!, k1.toInt!)
+      if o ≥ 2 then (d, "bad-op") else
+      let d1 := outerAt d o t k1
+      if op == "nempty" && (d1.inn o k1).d != 0 then (d1, "ok") else
+      (innerPrim d1 o t k1 .touch (fun c => c.prepare t), "ok")
+    else (d, "bad-op")
+  | [op, o, t] =>
+    if !d.have_ then (d, "bad-op") else
+    if op == "unbind" && d.kind != 3 then
+      let i := o
+      if !isNat i || !isTime t then (d, "bad-op") else
+      let (i, t) := (i.toNat!, t.toNat!)
+      match d.links[i]? with
+      | none => (d, "bad-op")
+      | some ln =>
+        if ln.tgt.isNone then (d, "bad-op") else
+        ({ d with links := d.links.set! i (stepL d.structural d.prod ln (.unbind t)) }, "ok")
+    else if (op == "touch" || op == "empty") && d.kind ≥ 2 then
+      if !isNat o || !isTime t then (d, "bad-op") else
+      let (o, t) := (o.toNat!, t.toNat!)
+      if o ≥ 2 then (d, "bad-op") else
+      if op == "empty" then (dictEmpty d o t, "ok") else
+      let d0 := if d.kind == 3 then outerPrepare d o t else d
+      (dictTouch d0 o t, "ok")
     else (d, "bad-op")
   | ["set", o, t, key, v] =>
     if !d.have_ || d.kind != 2 || !isNat o || !isTime t || !isInt key || !isInt v then (d, "bad-op") else
     let (o, t, key, v) := (o.toNat!, t.toNat!, key.toInt!, v.toInt!)
     if o ≥ 2 then (d, "bad-op") else
-    let (c1, _) := (d.colls.getD o {}).insert key t
-    let c2 := c1.markModified key t
-    let d1 := { d with colls := d.colls.set! o c2, dv := d.dv.set! o ((key, v) :: (d.dv.getD o []).filter (·.1 != key)) }
-    (tick d1 o (some key) t, "ok")
-  | ["unbind", i, t] =>
-    if !d.have_ || !isNat i || !isTime t then (d, "bad-op") else
-    let (i, t) := (i.toNat!, t.toNat!)
-    match d.links[i]? with
-    | none => (d, "bad-op")
-    | some ln =>
-      if ln.tgt.isNone then (d, "bad-op") else
-      ({ d with links := d.links.set! i (stepL d.structural d.prod ln (.unbind t)) }, "ok")
+    (dictSet d o t key v, "ok")
+  | ["ndel", o, t, k1, k2] =>
+    if !d.have_ || d.kind != 3 || !isNat o || !isTime t || !isInt k1 || !isInt k2 then (d, "bad-op") else
+    let (o, t, k1, k2) := (o.toNat!, t.toNat!, k1.toInt!, k2.toInt!)
+    if o ≥ 2 then (d, "bad-op") else
+    if !(d.colls.getD o {}).cur.contains k1 then (d, "-") else
+    let d1 := outerAt d o t k1
+    let ch := ((d1.inn o k1).coll.cur).contains k2
+    (innerPrim d1 o t k1 (.erase k2) (fun c => (c.remove k2 t).1), b2s ch)
+  | ["nset", o, t, k1, k2, v] =>
+    if !d.have_ || d.kind != 3 || !isNat o || !isTime t || !isInt k1 || !isInt k2 || !isInt v then (d, "bad-op") else
+    let (o, t, k1, k2, v) := (o.toNat!, t.toNat!, k1.toInt!, k2.toInt!, v.toInt!)
+    if o ≥ 2 then (d, "bad-op") else
+    let d1 := outerAt d o t k1
+    let d2 := innerPrim d1 o t k1 (.at k2) (fun c => ((c.insert k2 t).1).markModified k2 t)
+    (innerPrim d2 o t k1 .childTick id (some (k2, v)), "ok")
   | ["dump", t] =>
     if !d.have_ || !isTime t then (d, "bad-op") else (d, dumpLine d t.toNat!)
   | [] => (d, "")
